@@ -273,3 +273,47 @@ package ratelimiter
 //@   ensures [C05.api.acquire_permits_with_max_wait] nd == 1 && dp == requestedPermits && dc == ctx && dx == nil && dw == maxWaitTime && result == dres
 //@   havoc
 //@   modifies *
+
+// ---------------------------------------------------------------------------------------------
+// Reset: back to the freshly built state (no permit handed out, stopwatch restarted once), under the lock.
+//@ extfunc github.com/failsafe-go/failsafe-go/internal/util.Stopwatch.Reset
+//@   modifies nothing
+//@ extfunc github.com/failsafe-go/failsafe-go/ratelimiter.stats.reset
+//@   havoc
+//@ func (*smoothStats).reset
+//@   requires s != nil && s.config != nil && s.stopwatch != nil && !held(mutexof(s, "mtx")) && s.interval > 0
+//@   onwrite nextFreePermitTime: s.n := 0
+//@   ensures [C05.smooth.reset] s.nextFreePermitTime == 0 && ncalls(s.stopwatch.Reset) == 1 && !held(mutexof(s, "mtx"))
+//@   modifies s.nextFreePermitTime, s.n, calls(s.stopwatch.Reset)
+//@ func (*burstyStats).reset
+//@   requires s != nil && s.config != nil && s.stopwatch != nil && !held(mutexof(s, "mtx")) && s.periodPermits >= 1 && s.period >= 1
+//@   ensures [C05.bursty.reset] s.availablePermits == s.periodPermits && s.currentPeriod == 0 && ncalls(s.stopwatch.Reset) == 1 && !held(mutexof(s, "mtx"))
+//@   modifies s.availablePermits, s.currentPeriod, calls(s.stopwatch.Reset)
+//@ func (*rateLimiter).Reset
+//@   requires r != nil && r.stats != nil
+//@   ensures [C05.api.reset] ncalls(r.stats.reset) == 1
+//@   havoc
+//@   modifies calls(r.stats.reset)
+
+// convenience constructors: XBuilder(args).Build()
+//@ func Smooth
+//@   builder
+//@   dyntype RateLimiterBuilder *config only
+//@   requires maxExecutions >= 1 && maxExecutions <= 4611686018427387904 && period >= 0
+//@   let r := asref(result, *rateLimiter)
+//@   ensures [C05.with.smooth] typeis(result, *rateLimiter) && r.config != nil && r.config.interval == ediv(period, maxExecutions) && r.config.maxWaitTime == 0 && r.config.onRateLimitExceeded == nil && r.stats != nil
+//@   ensures [C05.with.smooth.kind] r.config.interval != 0 ==> typeis(r.stats, *smoothStats) && asref(r.stats, *smoothStats).config == r.config && asref(r.stats, *smoothStats).nextFreePermitTime == 0
+//@   modifies nothing
+//@ func SmoothWithMaxRate
+//@   builder
+//@   dyntype RateLimiterBuilder *config only
+//@   let r := asref(result, *rateLimiter)
+//@   ensures [C05.with.smooth_max_rate] typeis(result, *rateLimiter) && r.config != nil && r.config.interval == maxRate && r.config.maxWaitTime == 0 && r.stats != nil && (maxRate != 0 ==> typeis(r.stats, *smoothStats) && asref(r.stats, *smoothStats).config == r.config && asref(r.stats, *smoothStats).nextFreePermitTime == 0)
+//@   modifies nothing
+//@ func Bursty
+//@   builder
+//@   dyntype RateLimiterBuilder *config only
+//@   requires maxExecutions <= 2147483648
+//@   let r := asref(result, *rateLimiter)
+//@   ensures [C05.with.bursty] typeis(result, *rateLimiter) && r.config != nil && r.config.interval == 0 && r.config.periodPermits == maxExecutions && r.config.period == period && r.config.maxWaitTime == 0 && typeis(r.stats, *burstyStats) && asref(r.stats, *burstyStats).config == r.config && asref(r.stats, *burstyStats).availablePermits == maxExecutions && asref(r.stats, *burstyStats).currentPeriod == 0
+//@   modifies nothing
